@@ -6,12 +6,29 @@ ID = "C04"
 MODEL_MODULES = ["Base", "Index", "Broadcast", "Select"]
 HANDLERS = ["h_c04.ml"]
 
-PROVED = ["C04_tile_shape", "C04_tile_element"]
-REFUTED = []
-CORRESPONDENCE_ONLY = []
+PROVED = ["C04_tile_shape", "C04_tile_element", "C04_repeat_flat", "C04_repeat_axis_on_domain", "C04_roll_axis", "C04_roll_flat",
+          "C04_pad", "C04_take_axis_on_domain", "C04_take_flat_on_domain", "C04_resize", "C04_concatenate_axis_on_domain",
+          "C04_concatenate_flat", "C04_tril_triu", "C04_tril_triu_1d", "C04_tri_eye", "C04_diagflat"]
+REFUTED = ["C04_repeat_negative_axis_refuted", "C04_roll_repeated_axis_refuted", "C04_take_negative_axis_refuted",
+           "C04_take_negative_index_refuted", "C04_compress_negative_axis_refuted", "C04_concatenate_negative_axis_refuted",
+           "C04_diagonal_negative_offset_refuted", "C04_arange_negative_count_refuted", "C04_linspace_num1_endpoint_refuted"]
+CORRESPONDENCE_ONLY = ["roll with a tuple of axes", "repeat with per-element counts", "compress", "expand", "stack", "hstack", "vstack",
+                       "dstack", "column_stack", "split", "sliding_window", "diagonal", "where", "arange", "linspace",
+                       "full/zeros/ones(_like)", "identity"]
 
 CLAIM = dict(
-    text="(filled below)", ref="5.4",
+    text=("Kernel-checked for every dimension and every positive extent (Model Select.v = Spec, and the designated source index of every "
+          "non-fill element is in bounds): tile (shape for all arguments; element i = a[i mod shape]); repeat with a scalar count (axis=None "
+          "and 0 <= axis < dim); roll with one axis (negative axes, any shift sign and magnitude) and axis=None; pad (documented widths "
+          "[before.., after..], constant fill); take (0 <= axis < dim or axis=None, entries in range); resize (nearest neighbour); concatenate "
+          "(0 <= axis < dim and axis=None); tril / triu (dim >= 2 and the 1-d form), tri, eye, diagflat. REFUTED with Coq witnesses and listed "
+          "as known findings: negative axis in repeat / take / compress / concatenate (and stack), negative entries in take's index list, roll "
+          "with an axis listed twice, diagonal with a negative offset, arange of an empty range, linspace(num=1, endpoint). "
+          "CORRESPONDENCE-ONLY (modelled + specified + compared with the C++ on the grid, no element theorem): " + ", ".join(CORRESPONDENCE_ONLY) +
+          ". Tied to the C++ by running view::X and array::X on run-time shaped operands (arguments as std::vector / std::array / run-time "
+          "tuple / compile-time constants) and index::shape_X / index::X on vector / array / static_vector containers, two flavours "
+          "(NDEBUG; asserts + ASan/UBSan), comparing shape and every element."),
+    ref="5.4",
     technique="Coq proof (induction on shape lists) + differential correspondence with the extracted model", extra="")
 RULE = ("per routine: small-scope box (source dim 1..3, extents 1..3; thorough dim 1..4, extents 1..4) crossed with the "
         "argument grid of the property (reps/repeats 1..3, shifts in [-2n-1,2n+1], pad widths 0..2 per side, index lists "
@@ -32,7 +49,8 @@ def _sha(name):
 
 def drivers(tier):
     dep = "-DVD_DEP_SHA=\"%s%s\"" % (_sha("c04_common.hpp"), _sha("show.hpp"))
-    return {"c04a": [("c04_a.cpp", "ndebug", (dep,)), ("c04_a.cpp", "asan", ("-DVD_LIGHT", dep))]}
+    return {"c04a": [("c04_a.cpp", "ndebug", (dep,)), ("c04_a.cpp", "asan", ("-DVD_LIGHT", dep))],
+            "c04b": [("c04_b.cpp", "ndebug", (dep,)), ("c04_b.cpp", "asan", ("-DVD_LIGHT", dep))]}
 
 
 # ---------------------------------------------------------------- helpers
@@ -42,10 +60,23 @@ def A(shape):
     for x in shape: n *= x
     return "A:%s:%s" % (",".join(map(str, shape)), ",".join(map(str, range(n))))
 def AX(a): return "N" if a is None else "I:%d" % a
+def A1(shape, base=1):
+    n = 1
+    for x in shape: n *= x
+    return "A:%s:%s" % (",".join(map(str, shape)), ",".join(map(str, range(base, base + n))))
+def AD(shape, data): return "A:%s:%s" % (",".join(map(str, shape)), ",".join(map(str, data)))
+def size(shape):
+    n = 1
+    for x in shape: n *= x
+    return n
 
 CT_LISTS_POS = [(2,), (3,), (1, 2), (2, 1), (2, 2), (2, 1, 2)]
 CT_LISTS_AXES = [(0,), (0, 1), (1, 0), (-1, 0), (0, 2)]
 CT_LISTS_PAD = [(1, 2), (0, 1), (1, 0, 2, 1), (0, 2, 1, 0), (1, 0, 1, 0, 1, 2)]
+CT_LISTS_TAKE = [(0,), (1, 0), (0, 0, 1), (1, 1)]
+CT_LISTS_RESIZE = [(4,), (2, 5), (3, 1), (1, 2, 4)]
+CT_LISTS_WIN = [(2,), (1, 2), (2, 2), (2, 1, 2)]
+CT_INTS_OFF = [0, 1, -1, 2]
 CT_INTS_POS = [1, 2, 3]
 CT_INTS_AXIS = [0, 1, 2, -1]
 
@@ -154,6 +185,230 @@ def gen_cases(rng, tier):
     # malformed (outside the quantifier: judged "unspecified")
     add("malformed", "pad S:vec %s %s" % (A((2, 3)), L([1, 0, 2])))
     add("malformed", "roll S:vec %s I:1 I:2" % A((2, 3)))
+
+    # ---------------- take
+    for n, s in enumerate(take(rng, shapes, 40 * B) + big):
+        d = len(s)
+        for a in [None] + list(range(-d, d)):
+            if a is not None and a < 0 and rng.random() < 0.6: continue
+            nn = size(s) if a is None else s[a]
+            m = rng.randint(1, 4)
+            ind = [rng.randrange(nn) for _ in range(m)]
+            if m >= 2 and rng.random() < 0.5: ind[1] = ind[0]                 # repeated entry
+            k = ["vec", "arr", "tup"][n % 3]
+            add("take", "take S:%s %s %s %s" % (k, A(s), L(ind), AX(a)))
+            if rng.random() < 0.2: add("take", "take_e %s %s %s" % (A(s), L(ind), AX(a)))
+            if a is not None and d <= 4 and rng.random() < 0.4:
+                dst = list(s); dst[a] = m
+                add("take", "take_ix S:%s %s %s %s I:%d" % (["vec", "arr", "sv"][n % 3], L(s), L(ind), L(rand_index(rng, dst)), a))
+            if rng.random() < 0.25:                                           # negative entries (NumPy: from the end)
+                neg = [x - nn if rng.random() < 0.5 else x for x in ind]
+                if min(neg) >= 0: neg[0] -= nn
+                add("take_negative_index", "take S:vec %s %s %s" % (A(s), L(neg), AX(a if a is None or a >= 0 else a + d)))
+    for ind in CT_LISTS_TAKE:
+        for s in take(rng, [t for t in shapes if len(t) >= 2 and t[1] > max(ind)], 3): add("take", "take S:ct %s %s I:1" % (A(s), L(ind)))
+    for a in CT_INTS_AXIS:
+        for s in take(rng, [t for t in shapes if -len(t) <= a < len(t)], 3):
+            add("take", "take S:ctax %s %s I:%d" % (A(s), L([rng.randrange(s[a]) for _ in range(2)]), a))
+
+    # ---------------- compress
+    for n, s in enumerate(take(rng, shapes, 40 * B) + big):
+        d = len(s)
+        for a in [None] + list(range(-d, d)):
+            if a is not None and a < 0 and rng.random() < 0.6: continue
+            nn = size(s) if a is None else s[a]
+            m = rng.randint(1, nn)
+            c = [rng.randint(0, 1) for _ in range(m)]
+            if sum(c) == 0: c[rng.randrange(m)] = 1
+            add("compress", "compress S:%s %s %s %s" % (["vec", "arr", "tup"][n % 3], L(c), A(s), AX(a)))
+            if rng.random() < 0.2: add("compress", "compress_e %s %s %s" % (L(c), A(s), AX(a)))
+
+    # ---------------- resize
+    for n, s in enumerate(take(rng, shapes, 50 * B) + big):
+        d = len(s)
+        for _ in range(2):
+            dst = [rng.randint(1, 5) for _ in range(d)]
+            add("resize", "resize S:%s %s %s" % (["vec", "arr", "tup"][n % 3], A(s), L(dst)))
+            if rng.random() < 0.2: add("resize", "resize_e %s %s" % (A(s), L(dst)))
+            add("resize", "resize_ix S:%s %s %s %s" % (["vec", "arr", "sv"][n % 3], L(s), L(dst), L(rand_index(rng, dst))))
+    for dst in CT_LISTS_RESIZE:
+        for s in take(rng, [t for t in shapes if len(t) == len(dst)], 3): add("resize", "resize S:ct %s %s" % (A(s), L(dst)))
+    add("malformed", "resize S:vec %s %s" % (A((2, 3)), L([6])))
+    add("malformed", "resize S:vec %s %s" % (A((2, 3)), L([0, 2])))
+
+    # ---------------- expand
+    for n, s in enumerate(take(rng, shapes, 40 * B) + big):
+        d = len(s)
+        for a in range(-d, d):
+            q = rng.randint(0, 2)
+            add("expand", "expand S:vec %s I:%d I:%d" % (A(s), a, q))
+            if rng.random() < 0.15: add("expand", "expand_e %s I:%d I:%d" % (A(s), a, q))
+        if d >= 2:
+            m = rng.randint(1, d); axes = rng.sample(range(d), m)
+            axes = [x - d if rng.random() < 0.3 else x for x in axes]
+            add("expand", "expand_m S:%s %s %s %s" % (["vec", "arr", "tup"][n % 3], A(s), L(axes), L([rng.randint(0, 2) for _ in axes])))
+    for a in CT_INTS_AXIS:
+        for s in take(rng, [t for t in shapes if -len(t) <= a < len(t)], 3): add("expand", "expand S:ct %s I:%d I:%d" % (A(s), a, rng.randint(0, 2)))
+    for axes in CT_LISTS_AXES:
+        for s in take(rng, [t for t in shapes if len(t) > max(max(axes), 1)], 2):
+            add("expand", "expand_m S:ct %s %s %s" % (A(s), L(axes), L([rng.randint(0, 2) for _ in axes])))
+
+    # ---------------- concatenate
+    def B_(shape): return A1(shape, 100)
+    for n, s in enumerate(take(rng, shapes, 50 * B) + big):
+        d = len(s)
+        for a in [None] + list(range(-d, d)):
+            if a is not None and a < 0 and rng.random() < 0.6: continue
+            if a is None:
+                t = rng.choice(shapes)
+            else:
+                t = list(s); t[a] = rng.randint(1, 3); t = tuple(t)
+            k = "vec" if (a is None or a < 0) else ["vec", "u"][n % 2]
+            add("concat", "concat S:%s %s %s %s" % (k, A(s), B_(t), AX(a)), "c04b")
+            if rng.random() < 0.2: add("concat", "concat_e %s %s %s" % (A(s), B_(t), AX(a)), "c04a")
+            if a is not None and rng.random() < 0.5:
+                dst = list(s); dst[a] += t[a]
+                add("concat", "concat_ix S:%s %s %s %s I:%d" % (["vec", "arr", "sv"][n % 3], L(s), L(t), L(rand_index(rng, dst)), a), "c04b")
+    for a in CT_INTS_AXIS:
+        for s in take(rng, [t for t in shapes if -len(t) <= a < len(t)], 3):
+            t = list(s); t[a] = rng.randint(1, 3)
+            add("concat", "concat S:ct %s %s I:%d" % (A(s), B_(t), a), "c04b")
+    add("malformed", "concat S:vec %s %s I:0" % (A((2, 3)), B_((2, 2))), "c04b")
+    # stack family
+    for n, s in enumerate(take(rng, shapes, 40 * B) + big[:4]):
+        d = len(s)
+        for a in range(-d - 1, d + 1):
+            if a < 0 and rng.random() < 0.6: continue
+            add("stack", "stack S:vec %s %s I:%d" % (A(s), B_(s), a), "c04b")
+            if rng.random() < 0.15: add("stack", "stack_e %s %s I:%d" % (A(s), B_(s), a), "c04b")
+        ax = 0 if d == 1 else 1
+        t = list(s); t[ax] = rng.randint(1, 3)
+        add("stack", "hstack %s %s" % (A(s), B_(t)), "c04b")
+        if d == 1: add("stack", "vstack %s %s" % (A(s), B_(s)), "c04b")
+        else:
+            t = list(s); t[0] = rng.randint(1, 3); add("stack", "vstack %s %s" % (A(s), B_(t)), "c04b")
+        if d <= 2: add("stack", "dstack %s %s" % (A(s), B_(s)), "c04b")
+        else:
+            t = list(s); t[2] = rng.randint(1, 3); add("stack", "dstack %s %s" % (A(s), B_(t)), "c04b")
+        if d == 1: add("stack", "column_stack %s %s" % (A(s), B_(s)), "c04b")
+        else:
+            t = list(s); t[1] = rng.randint(1, 3); add("stack", "column_stack %s %s" % (A(s), B_(t)), "c04b")
+            if d == 2: add("stack", "column_stack %s %s" % (A(s), B_((s[0],))), "c04b")
+    for a in (0, 1, 2):
+        for s in take(rng, [t for t in shapes if len(t) >= a], 2): add("stack", "stack S:ct %s %s I:%d" % (A(s), B_(s), a), "c04b")
+
+    # ---------------- split
+    for n, s in enumerate(take(rng, all_shapes(maxd, 4), 50 * B) + [(6, 2), (2, 8), (4, 1, 6)]):
+        d = len(s)
+        a = rng.randrange(-d, d)
+        divs = [k for k in range(1, s[a] + 1) if s[a] % k == 0]
+        add("split", "split %s I:%d I:%d" % (A(s), rng.choice(divs), a), "c04b")
+        if s[a] >= 2:
+            m = rng.randint(1, min(3, s[a] - 1))
+            idx = sorted(rng.sample(range(1, s[a]), m))
+            add("split", "split_l S:%s %s %s I:%d" % (["vec", "arr", "tup"][n % 3], A(s), L(idx), a), "c04b")
+
+    # ---------------- sliding_window
+    for n, s in enumerate(take(rng, all_shapes(maxd, 4), 60 * B) + big):
+        d = len(s)
+        win = [rng.randint(1, e) for e in s]
+        add("sliding_window", "sw S:%s %s %s N" % (["vec", "arr", "tup"][n % 3], A(s), L(win)), "c04b")
+        m = rng.randint(1, d); axes = rng.sample(range(d), m)
+        w = [rng.randint(1, s[a]) for a in axes]
+        axes = [x - d if rng.random() < 0.3 else x for x in axes]
+        k = ["vec", "arr", "tup"][n % 3]
+        add("sliding_window", "sw S:%s %s %s %s" % (k, A(s), L(w), L(axes)), "c04b")
+        if rng.random() < 0.2: add("sliding_window", "sw_e %s %s %s" % (A(s), L(w), L(axes)), "c04b")
+        dst = [s[j] - sum(w[t] - 1 for t in range(m) if axes[t] % d == j) for j in range(d)] + w
+        if rng.random() < 0.5: add("sliding_window", "sw_ix S:%s %s %s %s %s" % (["vec", "arr", "sv"][n % 3], L(s), L(w), L(axes), L(rand_index(rng, dst))), "c04b")
+        a = rng.randrange(-d, d)
+        add("sliding_window", "sw1 S:vec %s I:%d I:%d" % (A(s), rng.randint(1, s[a]), a), "c04b")
+        if d == 1: add("sliding_window", "sw1 S:vec %s I:%d N" % (A(s), rng.randint(1, s[0])), "c04b")
+        # the same axis listed twice: both windows apply (NumPy does the same)
+        if rng.random() < 0.15 and s[a] >= 3:
+            add("sliding_window", "sw S:vec %s %s %s" % (A(s), L([2, 2]), L([a, a])), "c04b")
+    for w in CT_LISTS_WIN:
+        for s in take(rng, [t for t in all_shapes(maxd, 4) if len(t) == len(w) and all(x >= y for x, y in zip(t, w))], 3):
+            add("sliding_window", "sw S:ct %s %s N" % (A(s), L(w)), "c04b")
+    for axes in CT_LISTS_AXES:
+        for s in take(rng, [t for t in all_shapes(maxd, 4) if len(t) > max(max(axes), 1) and min(t) >= 2], 2):
+            add("sliding_window", "sw S:ct %s %s %s" % (A(s), L([2] * len(axes)), L(axes)), "c04b")
+    for a in CT_INTS_AXIS:
+        for s in take(rng, [t for t in shapes if -len(t) <= a < len(t)], 2): add("sliding_window", "sw1 S:ct %s I:%d I:%d" % (A(s), rng.randint(1, s[a]), a), "c04b")
+
+    # ---------------- diagonal / diagflat / tril / triu
+    for n, s in enumerate(take(rng, [t for t in all_shapes(maxd, 4) if len(t) >= 2], 60 * B) + big[:2] + big[3:]):
+        d = len(s)
+        a1, a2 = rng.sample(range(d), 2)
+        if n % 3 == 0: a1, a2 = 0, 1
+        for off in range(0, s[a2]):
+            if s[a1] >= 1 and off < s[a2]:
+                b1, b2 = (a1 - d if rng.random() < 0.25 else a1), (a2 - d if rng.random() < 0.25 else a2)
+                add("diagonal", "diagonal S:vec %s I:%d I:%d I:%d" % (A(s), off, b1, b2), "c04b")
+        if rng.random() < 0.2: add("diagonal", "diagonal_e %s I:%d I:%d I:%d" % (A(s), rng.randrange(s[a2]), a1, a2), "c04b")
+        if rng.random() < 0.3:
+            add("diagonal_negative_offset", "diagonal S:vec %s I:%d I:%d I:%d" % (A(s), -rng.randint(1, s[a1] - 1) if s[a1] > 1 else -1, a1, a2), "c04b")
+    for off in CT_INTS_OFF:
+        if off >= 0:
+            for s in take(rng, [t for t in all_shapes(3, 4) if len(t) >= 2 and t[1] > off], 3): add("diagonal", "diagonal S:ct %s I:%d I:0 I:1" % (A(s), off), "c04b")
+    for n, s in enumerate(take(rng, shapes, 30 * B) + big):
+        d = len(s)
+        for k in take(rng, range(-3, 4), 3):
+            add("tril_triu", "tril S:vec %s I:%d" % (A1(s), k), "c04b")
+            add("tril_triu", "triu S:vec %s I:%d" % (A1(s), k), "c04b")
+        if rng.random() < 0.3:
+            add("tril_triu", "tril_e %s I:%d" % (A1(s), rng.randint(-2, 2)), "c04b")
+            add("tril_triu", "triu_e %s I:%d" % (A1(s), rng.randint(-2, 2)), "c04b")
+        if size(s) <= 6: add("diagflat", "diagflat %s I:%d" % (A1(s), rng.randint(-2, 2)), "c04b")
+    for k in CT_INTS_OFF:
+        for s in take(rng, shapes, 2):
+            add("tril_triu", "tril S:ct %s I:%d" % (A1(s), k), "c04b"); add("tril_triu", "triu S:ct %s I:%d" % (A1(s), k), "c04b")
+
+    # ---------------- where
+    def stretch(t):
+        r = [1 if rng.random() < 0.35 else e for e in t]
+        return tuple(r[rng.randint(0, len(r) - 1):])
+    for n in range(60 * B):
+        t = rng.choice(shapes)
+        c, x, y = (stretch(t), stretch(t), stretch(t)) if rng.random() < 0.7 else (t, t, t)
+        cd = [rng.randint(0, 1) for _ in range(size(c))]
+        add("where", "%s %s %s %s" % ("where" if n % 4 else "where_e", AD(c, cd), A(x), A1(y, 100)), "c04b")
+
+    # ---------------- generators
+    for n_ in range(1, 5):
+        add("generators", "identity I:%d" % n_, "c04b")
+        for m_ in [None] + list(range(1, 5)):
+            for k in range(-4, 5):
+                if rng.random() < (0.35 if q else 1.0):
+                    add("generators", "tri I:%d %s I:%d" % (n_, AX(m_), k), "c04b")
+                    add("generators", "eye I:%d %s I:%d" % (n_, AX(m_), k), "c04b")
+                    if m_ is not None and rng.random() < 0.2: add("generators", "eye_e I:%d I:%d I:%d" % (n_, m_, k), "c04b")
+    for n, s in enumerate(take(rng, shapes, 20 * B) + big):
+        k = ["vec", "arr", "tup"][n % 3]
+        add("generators", "full S:%s %s I:%d" % (k, L(s), rng.randint(-9, 9)), "c04b")
+        add("generators", "zeros S:%s %s" % (k, L(s)), "c04b"); add("generators", "ones S:%s %s" % (k, L(s)), "c04b")
+        add("generators", "full_like %s I:%d" % (A(s), rng.randint(-9, 9)), "c04b")
+        add("generators", "zeros_like %s" % A(s), "c04b"); add("generators", "ones_like %s" % A(s), "c04b")
+    for s in CT_LISTS_RESIZE:
+        add("generators", "full S:ct %s I:7" % L(s), "c04b"); add("generators", "zeros S:ct %s" % L(s), "c04b"); add("generators", "ones S:ct %s" % L(s), "c04b")
+    # arange: integer start/stop, step p/q with q in {1,2,4} (exact in binary floating point)
+    for start in range(-3, 4):
+        for stop in range(-3, 8):
+            for (p, qq) in [(1, 1), (2, 1), (3, 1), (-1, 1), (-2, 1), (1, 2), (3, 2), (-1, 2), (3, 4), (5, 4)]:
+                if (stop - start) * p <= 0: continue                 # empty ranges: separate stream below
+                if rng.random() < (0.12 if q else 0.6): add("generators", "arange I:%d I:%d I:%d I:%d" % (start, stop, p, qq), "c04b")
+    for stop in range(1, 6): add("generators", "arange1 I:%d" % stop, "c04b")
+    for _ in range(8): a_ = rng.randint(-3, 3); add("generators", "arange2 I:%d I:%d" % (a_, a_ + rng.randint(1, 5)), "c04b")
+    for _ in range(6): a_ = rng.randint(-3, 3); add("generators", "arange_e I:%d I:%d I:%d" % (a_, a_ + rng.randint(1, 6), rng.randint(1, 3)), "c04b")
+    add("generators", "arange I:2 I:2 I:1 I:1", "c04b")                   # empty, count 0
+    for (a_, b_, p) in [(3, 0, 1), (0, 3, -1), (2, 1, 2)]: add("arange_negative_count", "arange I:%d I:%d I:%d I:1" % (a_, b_, p), "c04b")
+    for start in range(-2, 3):
+        for stop in range(-2, 6):
+            for num in (1, 2, 3, 4, 5, 8):
+                for e in (0, 1):
+                    if num == 1 and e == 1: continue
+                    if rng.random() < (0.1 if q else 0.5): add("generators", "linspace I:%d I:%d I:%d I:%d" % (start, stop, num, e), "c04b")
+    for (a_, b_) in [(2, 5), (0, 0), (-1, 3)]: add("linspace_num1_endpoint", "linspace I:%d I:%d I:1 I:1" % (a_, b_), "c04b")
     return out
 
 
@@ -191,7 +446,48 @@ def classify(line, impl, spec, model):
     if op in ("repeat", "repeat_e", "repeat_l", "repeat_ix"):
         ax = t[-1]
         if ax.startswith("I:") and int(ax[2:]) < 0: return "repeat_negative_axis"
+    if op in ("take", "take_e", "take_ix"):
+        ax = t[-1]
+        if ax.startswith("I:") and int(ax[2:]) < 0: return "take_negative_axis"
+        ind = _ints(t[3] if op != "take_e" else t[2]) if op != "take_ix" else _ints(t[3])
+        if any(x < 0 for x in ind): return "take_negative_index"
+    if op in ("compress", "compress_e"):
+        ax = t[-1]
+        if ax.startswith("I:") and int(ax[2:]) < 0: return "compress_negative_axis"
+    if op in ("concat", "concat_e", "concat_ix", "stack", "stack_e"):
+        ax = t[-1]
+        if ax.startswith("I:") and int(ax[2:]) < 0: return "concatenate_negative_axis"
+    if op in ("diagonal", "diagonal_e"):
+        off = int(t[-3][2:])
+        if off < 0: return "diagonal_negative_offset"
+    if op in ("arange", "arange_e"):
+        a_, b_, p = int(t[1][2:]), int(t[2][2:]), int(t[3][2:])
+        if p != 0 and (b_ - a_) * p < 0: return "arange_negative_count"
+    if op == "linspace" and t[3] == "I:1" and t[4] == "I:1": return "linspace_num1_endpoint"
     if op in ("roll_m", "roll_ms"):
         d = _src_dim(t); axes = [a + d if a < 0 else a for a in _ints(t[-1])]
         if len(set(axes)) < len(axes): return "roll_repeated_axis"
     return None
+
+
+def _num(x):
+    try: return float(x)
+    except ValueError: return None
+
+
+def equal(a, b):
+    """whitespace-insensitive equality; elements that are written as reals are compared at float32 resolution (relative 2e-6):
+    index::linspace_step computes (float)stop - (float)start even for double arguments (linspace.hpp:17)"""
+    a = " ".join(a.split()); b = " ".join(b.split())
+    if a == b: return True
+    if not (a.startswith("ok ") and b.startswith("ok ")) or "|" in a or "|" in b: return False
+    if "." not in a + b and "e" not in a + b: return False
+    ha, _, ea = a.partition(";"); hb, _, eb = b.partition(";")
+    if ha.strip() != hb.strip(): return False
+    xa = [x for x in ea.strip().split(",") if x]; xb = [x for x in eb.strip().split(",") if x]
+    if len(xa) != len(xb): return False
+    for u, v in zip(xa, xb):
+        fu, fv = _num(u), _num(v)
+        if fu is None or fv is None or fu != fu or fv != fv: return False
+        if abs(fu - fv) > 2e-6 * max(1.0, abs(fu), abs(fv)): return False
+    return True
